@@ -120,8 +120,8 @@ def main():
     workdir = tempfile.mkdtemp(prefix='verif_%s_' % prop, dir=os.environ.get('VERIF_TMP', '/var/tmp'))
     evid_path = os.path.join(ROOT, 'evidence', prop + '.json')
     os.makedirs(os.path.dirname(evid_path), exist_ok=True)
-    if only:
-        # a partial run (development aid) must not replace the evidence of the registered command
+    if only or os.path.realpath(os.environ.get('VERIF_REPO', '/repo')) != '/repo':
+        # a partial run or a run against a scratch copy of the tree (development aids) must not replace the evidence of the registered command
         evid_path = os.path.join(os.environ.get('VERIF_TMP', '/var/tmp'), 'partial_evidence_%s.json' % prop)
     try:
         return run_property(prop, tier, seed, workdir, evid_path, t0, only)
